@@ -98,8 +98,11 @@ pub fn jobs_for(prop: &str) -> Vec<Job> {
     match prop {
         "C02" | "C08" => {
             let mut v = seq_all(Focus::General, 1);
-            if prop == "C08" {
-                v.extend(conc_all());
+            // compare-and-append / found-gone under overlap: the scheduled batches
+            v.extend(conc_all());
+            if prop == "C02" {
+                // uploads that break off mid-body must not be stored
+                v.extend(wire_all().into_iter().filter(|j| j.name == "wire-mem"));
             }
             // exhaustive small scope: every (chain length 0..8, base, snapshot?, class of parent)
             let n = crate::seq::parentgrid_cases().len() as u64;
@@ -151,6 +154,7 @@ pub fn jobs_for(prop: &str) -> Vec<Job> {
             // uploads split into chunks, also while other uploads interleave on the same worker
             let mut v = seq_all(Focus::Payloads, 1);
             v.extend(conc_all().into_iter().filter(|j| j.name.contains("http")));
+            v.extend(wire_all().into_iter().filter(|j| j.name == "wire-mem"));
             v
         }
         "C14" => {
